@@ -16,19 +16,20 @@ import (
 func init() { registry["C06"] = runC06 }
 
 type c06Case struct {
-	srvMode   string // gm | auto | tls
-	cliKind   string // gm | tls | std
-	cliSuites []uint16
-	srvSuites []uint16
-	preferSrv bool
-	auth      gmtls.ClientAuthType
-	cliCert   string // none | trusted | untrusted
-	certSrc   string // static | callbacks
-	tickets   bool
-	cliTrusts bool   // client trusts the server's root
-	stdCert   string // rsa | ec (TLS suites)
-	tlsVer    uint16
-	name      string
+	srvMode    string // gm | auto | tls
+	cliKind    string // gm | tls | std
+	cliSuites  []uint16
+	srvSuites  []uint16
+	preferSrv  bool
+	auth       gmtls.ClientAuthType
+	cliCert    string // none | trusted | untrusted
+	stdCliCert string // "", "rsa", "ec": RSA / ECDSA client certificate in the interop cells (server: RequireAnyClientCert)
+	certSrc    string // static | callbacks
+	tickets    bool
+	cliTrusts  bool   // client trusts the server's root
+	stdCert    string // rsa | ec (TLS suites)
+	tlsVer     uint16
+	name       string
 }
 
 const (
@@ -162,9 +163,45 @@ func runC06(c *Ctx) {
 						stdCert: ts.cert, tlsVer: ver, tickets: ti%2 == 0, auth: auths[(ti+ki)%2]})
 				}
 			}
+			// client certificates of the standard key types in the interop cells, both directions: CertificateVerify is
+			// produced by one stack and checked by the other (TLS 1.0/1.1 fix the hash by key type, TLS 1.2 negotiates it)
+			for ci, ck := range []string{"rsa", "ec"} {
+				if !c.Thorough && (ti+ci+int(ver))%3 != 0 {
+					continue
+				}
+				cases = append(cases, c06Case{srvMode: "tls", cliKind: "std", cliSuites: []uint16{ts.id}, srvSuites: []uint16{ts.id}, cliTrusts: true, certSrc: "static",
+					stdCert: ts.cert, tlsVer: ver, auth: gmtls.RequireAnyClientCert, cliCert: "trusted", stdCliCert: ck})
+				cases = append(cases, c06Case{srvMode: "stdserver", cliKind: "tls", cliSuites: []uint16{ts.id}, srvSuites: []uint16{ts.id}, cliTrusts: true, certSrc: "static",
+					stdCert: ts.cert, tlsVer: ver, auth: gmtls.RequireAnyClientCert, cliCert: "trusted", stdCliCert: ck})
+				cases = append(cases, c06Case{srvMode: "tls", cliKind: "tls", cliSuites: []uint16{ts.id}, srvSuites: []uint16{ts.id}, cliTrusts: true, certSrc: "static",
+					stdCert: ts.cert, tlsVer: ver, auth: gmtls.RequireAnyClientCert, cliCert: "trusted", stdCliCert: ck})
+			}
 			// crypto/tls server, gmtls TLS client
 			if c.Thorough || (ti+int(ver))%2 == 0 {
 				cases = append(cases, c06Case{srvMode: "stdserver", cliKind: "tls", cliSuites: []uint16{ts.id}, srvSuites: []uint16{ts.id}, cliTrusts: true, stdCert: ts.cert, tlsVer: ver, certSrc: "static"})
+			}
+		}
+	}
+	// standard-TLS servers with every client-certificate policy, a certificate-bearing gmtls client and tickets on (so the
+	// second connection of the configuration resumes a session that was set up with a client certificate)
+	for ai, auth := range auths[1:] {
+		for mi, mode := range []string{"tls", "auto"} {
+			for vi, ver := range []uint16{gmtls.VersionTLS12, gmtls.VersionTLS10} {
+				if !c.Thorough && (ai+mi+vi)%2 != 0 {
+					continue
+				}
+				su, sc := gmtls.TLS_ECDHE_RSA_WITH_AES_256_CBC_SHA, "rsa"
+				if ver == gmtls.VersionTLS12 && ai%2 == 0 {
+					su = gmtls.TLS_ECDHE_RSA_WITH_AES_128_GCM_SHA256
+				}
+				for ci, cc := range []string{"trusted", "none"} {
+					k := ""
+					if cc == "trusted" {
+						k = []string{"rsa", "ec"}[(ai+mi+ci)%2] // standard key types: SM2 certificates have no place in TLS 1.0/1.1
+					}
+					cases = append(cases, c06Case{srvMode: mode, cliKind: "tls", cliSuites: []uint16{su}, srvSuites: []uint16{su}, cliTrusts: true, certSrc: map[string]string{"tls": "static", "auto": "callbacks"}[mode],
+						stdCert: sc, tlsVer: ver, tickets: true, auth: auth, cliCert: cc, stdCliCert: k})
+				}
 			}
 		}
 	}
@@ -173,7 +210,7 @@ func runC06(c *Ctx) {
 		if cs.cliCert == "" {
 			cs.cliCert = "none"
 		}
-		cs.name = fmt.Sprintf("srv=%s/cli=%s/cs=%v/ss=%v/prefSrv=%v/auth=%s/ccert=%s/src=%s/tickets=%v/trust=%v/ver=%04x/%s", cs.srvMode, cs.cliKind, suiteNames(cs.cliSuites), suiteNames(cs.srvSuites), cs.preferSrv, authName(cs.auth), cs.cliCert, cs.certSrc, cs.tickets, cs.cliTrusts, cs.tlsVer, cs.stdCert)
+		cs.name = fmt.Sprintf("srv=%s/cli=%s/cs=%v/ss=%v/prefSrv=%v/auth=%s/ccert=%s%s/src=%s/tickets=%v/trust=%v/ver=%04x/%s", cs.srvMode, cs.cliKind, suiteNames(cs.cliSuites), suiteNames(cs.srvSuites), cs.preferSrv, authName(cs.auth), cs.cliCert, cs.stdCliCert, cs.certSrc, cs.tickets, cs.cliTrusts, cs.tlsVer, cs.stdCert)
 	}
 	rep.Count("cases", int64(len(cases)))
 	var smu sync.Mutex
@@ -210,7 +247,7 @@ func runC06Case(c *Ctx, pki *tlsPKI, cs c06Case, idx int, sample func(interface{
 	if cs.srvMode == "stdserver" {
 		exp = expComplete
 	}
-	cls := fmt.Sprintf("srv=%s/cli=%s/suite=%s/auth=%s/ccert=%s/src=%s/tickets=%v/ver=%04x/%s", cs.srvMode, cs.cliKind, suiteNames(cs.cliSuites), authName(cs.auth), cs.cliCert, cs.certSrc, cs.tickets, cs.tlsVer, exp)
+	cls := fmt.Sprintf("srv=%s/cli=%s/suite=%s/auth=%s/ccert=%s%s/src=%s/tickets=%v/ver=%04x/%s", cs.srvMode, cs.cliKind, suiteNames(cs.cliSuites), authName(cs.auth), cs.cliCert, cs.stdCliCert, cs.certSrc, cs.tickets, cs.tlsVer, exp)
 	klog := &keyLog{}
 	// ---- server config
 	scfg := &gmtls.Config{CipherSuites: cs.srvSuites, PreferServerCipherSuites: cs.preferSrv, ClientAuth: cs.auth, ClientCAs: pki.pool,
@@ -251,6 +288,12 @@ func runC06Case(c *Ctx, pki *tlsPKI, cs c06Case, idx int, sample func(interface{
 	if cs.tlsVer != 0 && cs.srvMode != "gm" {
 		scfg.MaxVersion = cs.tlsVer
 	}
+	if cs.stdCliCert != "" {
+		scfg.ClientCAs = nil // no CA hints: the self-signed RSA / ECDSA client certificates are sent whatever their issuer
+		if cs.auth >= gmtls.VerifyClientCertIfGiven {
+			scfg.ClientCAs = pki.gmStdPool // the self-signed RSA / ECDSA certificates are their own trust anchors
+		}
+	}
 	// ---- client config
 	roots := pki.pool
 	if !cs.cliTrusts {
@@ -272,8 +315,17 @@ func runC06Case(c *Ctx, pki *tlsPKI, cs c06Case, idx int, sample func(interface{
 			ccfg.MinVersion, ccfg.MaxVersion = cs.tlsVer, cs.tlsVer
 		}
 	}
+	switch {
+	case cs.stdCliCert == "rsa":
+		ccfg.Certificates = []gmtls.Certificate{pki.rsaCert}
+	case cs.stdCliCert == "ec":
+		ccfg.Certificates = []gmtls.Certificate{pki.ecCert}
+	}
 	switch cs.cliCert {
 	case "trusted":
+		if cs.stdCliCert != "" {
+			break
+		}
 		if cs.certSrc == "callbacks" {
 			ccfg.GetClientCertificate = func(*gmtls.CertificateRequestInfo) (*gmtls.Certificate, error) { return &pki.cliSig, nil }
 		} else {
@@ -413,6 +465,13 @@ func runC06Case(c *Ctx, pki *tlsPKI, cs c06Case, idx int, sample func(interface{
 			}
 			if !sameStrings(out2.cli.ekm, out2.srv.ekm) {
 				rep.Violation("C06/second-connection/ExportKeyingMaterial-differs", "", w2)
+			}
+			// the peer identities are those of the first connection, resumed or not
+			if len(s2.PeerCertificates) != len(sst.PeerCertificates) || (len(s2.PeerCertificates) > 0 && !bytes.Equal(s2.PeerCertificates[0].Raw, sst.PeerCertificates[0].Raw)) {
+				rep.Violation(fmt.Sprintf("C06/second-connection/server-view-of-client-certificate-differs/resumed=%v", s2.DidResume), fmt.Sprintf("first connection: %d certificate(s), second: %d", len(sst.PeerCertificates), len(s2.PeerCertificates)), w2)
+			}
+			if len(c2.PeerCertificates) == 0 || len(cst.PeerCertificates) == 0 || !bytes.Equal(c2.PeerCertificates[0].Raw, cst.PeerCertificates[0].Raw) {
+				rep.Violation(fmt.Sprintf("C06/second-connection/client-view-of-server-certificate-differs/resumed=%v", c2.DidResume), "", w2)
 			}
 			seed2 := r.U64()
 			c06Exchange(rep, out2.cli.conn, out2.srv.conn, seed2, 3000, r, w2, "C06")
@@ -582,6 +641,12 @@ func runC06Std(c *Ctx, pki *tlsPKI, cs c06Case, scfg, ccfg *gmtls.Config, cls, e
 	if cs.cliKind == "std" {
 		sc := gmtls.Server(sm, scfg)
 		stdc := &stdtls.Config{ServerName: tlsServerName, RootCAs: pki.stdRootPool, CipherSuites: cs.cliSuites, MinVersion: stdVer(cs.tlsVer), MaxVersion: stdVer(cs.tlsVer), Time: func() (t timeT) { return fixedNow }}
+		switch cs.stdCliCert {
+		case "rsa":
+			stdc.Certificates = []stdtls.Certificate{pki.stdRSA}
+		case "ec":
+			stdc.Certificates = []stdtls.Certificate{pki.stdEC}
+		}
 		cc := stdtls.Client(cm, stdc)
 		wg.Add(2)
 		go func() {
@@ -611,6 +676,9 @@ func runC06Std(c *Ctx, pki *tlsPKI, cs c06Case, scfg, ccfg *gmtls.Config, cls, e
 			cert = pki.stdEC
 		}
 		stds := &stdtls.Config{Certificates: []stdtls.Certificate{cert}, CipherSuites: cs.srvSuites, MinVersion: cs.tlsVer, MaxVersion: cs.tlsVer, Time: func() (t timeT) { return fixedNow }}
+		if cs.stdCliCert != "" {
+			stds.ClientAuth = stdtls.RequireAnyClientCert
+		}
 		sc := stdtls.Server(sm, stds)
 		cc := gmtls.Client(cm, ccfg)
 		wg.Add(2)
@@ -663,6 +731,18 @@ func runC06Std(c *Ctx, pki *tlsPKI, cs c06Case, scfg, ccfg *gmtls.Config, cls, e
 	if !ok {
 		rep.Eval(cls)
 		return
+	}
+	if cs.stdCliCert != "" {
+		n := 0
+		switch sv := sa.(type) {
+		case *gmtls.Conn:
+			n = len(sv.ConnectionState().PeerCertificates)
+		case *stdtls.Conn:
+			n = len(sv.ConnectionState().PeerCertificates)
+		}
+		if n == 0 {
+			rep.Violation("C06/interop-with-crypto/tls/server-sees-no-client-certificate", cs.name, w)
+		}
 	}
 	if cVer != sVer || cSuite != sSuite || cVer != cs.tlsVer {
 		rep.Violation("C06/interop-with-crypto/tls/ends-disagree", fmt.Sprintf("client v=%04x s=%04x server v=%04x s=%04x want v=%04x", cVer, cSuite, sVer, sSuite, cs.tlsVer), w)
